@@ -1,5 +1,6 @@
 import Mkdb.Props.C10
 import Mkdb.Proofs.ScanText8
+import Mkdb.Proofs.TextStmt3
 /-!
 # C10 — parsing is faithful, TEXT level (the scanner)
 
@@ -259,5 +260,139 @@ tokens too, whose text `Atoi` then refuses -/
 example : scanSQL (asciiText "007 1_0 0x1F") = .ok [⟨t_INT, [48, 48, 55]⟩, ⟨t_INT, [49, 95, 48]⟩, ⟨t_INT, [48, 120, 49, 70]⟩] ∧
     (match parseSQL (asciiText "SELECT a FROM t LIMIT 0x1F") with | .err .atoi => true | _ => false) = true :=
   ⟨by rfl, by decide +kernel⟩
+
+/-! ## The whole statement as SQL text (scanner + parser + token-level round trip) -/
+
+/-- **C10.text_tokens_covered**: every token of a rendered text-writable statement (`TextOK`) and of its
+closing semicolons is a token the text level covers (`TokOK`) - whatever optional spellings `o` chooses
+and whatever texts `o.kw` puts on keyword tokens (the text level writes the keyword table's spelling in
+the case chosen per occurrence, and the parser never reads that text).  Hypothesis: literals are written
+by the standard tokens. -/
+theorem C10_text_tokens_covered (o : ROpts) (ho : o.lit = stdLitTok) (s : Stmt) (ht : TextOK s) (k : Nat) :
+    ∀ t ∈ renderStmt o s ++ closing o k false, TokOK t = true :=
+  renderStmt_tokOK o ho s ht k
+
+/-- **C10.text_roundtrip** - PARSING IS FAITHFUL, the sentence of the property.  For every statement `s`
+the grammar can express (`WFStmt`) whose names and strings can be written in plain SQL text (`TextOK`):
+writing it as SQL text - the optional keywords and spellings chosen by `o` (AS, INNER, ASC, GROUP BY
+commas, LIMIT/OFFSET order, `()`, `SHOW DATABASE` / `SHOW databases`), every keyword occurrence in the
+letter case `cs` chooses for it, the tokens separated by the gaps `gap` (spaces, tabs, CR, LF, `/* */`
+and `//` comments; nothing where two tokens may touch: `layoutOK`), closed by `k` semicolons - and
+parsing that text (`parseSQL`: scanner, then parser) yields exactly `s`.
+Hypotheses: `o.lit = stdLitTok` (integers as decimal digits, strings as `'text'`); `closingOK` (behind a
+SELECT without FROM the code accepts at most one semicolon); `layoutOK` (decidable; every layout with a
+non-empty gap between any two tokens qualifies, see `C10_text_roundtrip_spaced`).
+`TextOK` excludes: names needing "delimited identifier" quoting (reserved words, blanks, leading digit,
+empty), non-ASCII names and strings, strings with a quote, line feed or a backslash sequence beyond
+`strBodyOK`; `WFStmt` excludes negative integers (`-5` is not a token) and shapes the grammar cannot
+produce. -/
+theorem C10_text_roundtrip (o : ROpts) (ho : o.lit = stdLitTok) (s : Stmt) (hw : WFStmt s) (ht : TextOK s)
+    (k : Nat) (hc : closingOK s k false = true) (gap : Nat → Gap) (cs : Nat → List Bool)
+    (hlay : layoutOK gap cs 0 (renderStmt o s ++ closing o k false) = true) :
+    parseSQL (renderText gap cs (renderStmt o s ++ closing o k false)) = .ok s :=
+  parseSQL_renderStmt o ho s hw ht k hc gap cs hlay
+
+/-- **C10.text_roundtrip (any whitespace)**: the same for every layout that puts at least one whitespace
+rune or comment between any two tokens (leading and trailing gap optional) - no condition that mentions
+the tokens. -/
+theorem C10_text_roundtrip_spaced (o : ROpts) (ho : o.lit = stdLitTok) (s : Stmt) (hw : WFStmt s) (ht : TextOK s)
+    (k : Nat) (hc : closingOK s k false = true) (gap : Nat → Gap) (cs : Nat → List Bool)
+    (hgap : ∀ i, Gap.ok (gap i) = true) (hsp : ∀ j, 0 < j → gap j ≠ []) :
+    parseSQL (renderText gap cs (renderStmt o s ++ closing o k false)) = .ok s :=
+  C10_text_roundtrip o ho s hw ht k hc gap cs (C10_spaced_layout gap cs _ hgap (fun j h _ => hsp j h))
+
+/-- **C10.text_no_list_cut**: no clause written as text in standard form is cut short - the statement
+parsed from the TEXT of `s` has the same select list, GROUP BY list, ORDER BY list, INSERT column list,
+VALUES rows (and values in each row), SET assignments and column definitions as `s`: same elements in
+the same order, hence the same lengths.  (`C10_no_list_cut` through the scanner; same hypotheses as
+`C10_text_roundtrip`.) -/
+theorem C10_text_no_list_cut (o : ROpts) (ho : o.lit = stdLitTok) (s : Stmt) (hw : WFStmt s) (ht : TextOK s)
+    (k : Nat) (hc : closingOK s k false = true) (gap : Nat → Gap) (cs : Nat → List Bool)
+    (hlay : layoutOK gap cs 0 (renderStmt o s ++ closing o k false) = true) :
+    (∀ sel, s = .select sel → ∃ sel',
+      parseSQL (renderText gap cs (renderStmt o s ++ closing o k false)) = .ok (.select sel') ∧
+      sel'.list = sel.list ∧ sel'.groupBy = sel.groupBy ∧ sel'.orderBy = sel.orderBy ∧
+      sel'.list.length = sel.list.length ∧ sel'.groupBy.length = sel.groupBy.length ∧
+      sel'.orderBy.length = sel.orderBy.length) ∧
+    (∀ t cols rows, s = .insert t cols rows → ∃ cols' rows',
+      parseSQL (renderText gap cs (renderStmt o s ++ closing o k false)) = .ok (.insert t cols' rows') ∧
+      cols' = cols ∧ rows' = rows ∧ rows'.length = rows.length ∧ rows'.map List.length = rows.map List.length) ∧
+    (∀ t sets w, s = .update t sets w → ∃ sets',
+      parseSQL (renderText gap cs (renderStmt o s ++ closing o k false)) = .ok (.update t sets' w) ∧
+      sets' = sets ∧ sets'.length = sets.length) ∧
+    (∀ n cols, s = .createTable n cols → ∃ cols',
+      parseSQL (renderText gap cs (renderStmt o s ++ closing o k false)) = .ok (.createTable n cols') ∧
+      cols' = cols ∧ cols'.length = cols.length) := by
+  rw [C10_text_parse gap cs _ (renderStmt_tokOK o ho s ht k) hlay]
+  exact C10_no_list_cut o ho s hw k false hc
+
+/-! ### Non-vacuity: the rich statements of `Props/C10.lean` as text -/
+
+/-- they are text-writable -/
+example : TextOK c10ExSelect ∧ TextOK c10ExInsert ∧ TextOK c10ExCreate ∧ TextOK c10ExUpdate ∧ TextOK c10TxTightStmt := by
+  decide
+
+/-- the CREATE TABLE as text, layout `c10TxGap` (tabs, CR LF, blanks), cases `c10TxCase` -/
+example : (renderText c10TxGap c10TxCase (renderStmt {} c10ExCreate ++ closing {} 1 false)).map (·.code) =
+    strCodes "cReAtE table t ( a\tINT ,\r\n  b BIGINT ,\tc VARCHAR ( 255\r\n  )\t, d BOOLEAN ) ;\t" := by decide
+
+/-- the INSERT with the non-default spellings and two semicolons -/
+example : (renderText c10TxGap c10TxCase (renderStmt c10ExOpts c10ExInsert ++ closing c10ExOpts 2 false)).map (·.code) =
+    strCodes "iNsErT into t ( a\t, b\r\n  ) VALUES (\t1 , 'x' ,\r\n  TRUE\t) , ( 2 ,\t'y'\r\n  , false ) ,\t( ) ;\r\n  ; " := by
+  decide
+
+/-- the beginning of the 102-token SELECT: `sElEcT t . a as\tx ,\r\n  count ( *\t) AS c ,` -/
+example : ((renderText c10TxGap c10TxCase (renderStmt {} c10ExSelect ++ closing {} 1 false)).take 41).map (·.code) =
+    strCodes "sElEcT t . a as\tx ,\r\n  count ( *\t) AS c ," := by decide
+
+/-- the theorem instantiated: SELECT (default and non-default spellings), INSERT, CREATE TABLE, UPDATE, SHOW -/
+example :
+    parseSQL (renderText c10TxGap c10TxCase (renderStmt {} c10ExSelect ++ closing {} 1 false)) = .ok c10ExSelect ∧
+    parseSQL (renderText c10TxGap c10TxCase (renderStmt c10ExOpts c10ExSelect ++ closing c10ExOpts 0 false)) = .ok c10ExSelect ∧
+    parseSQL (renderText c10TxGap c10TxCase (renderStmt c10ExOpts c10ExInsert ++ closing c10ExOpts 2 false)) = .ok c10ExInsert ∧
+    parseSQL (renderText c10TxGap c10TxCase (renderStmt {} c10ExCreate ++ closing {} 1 false)) = .ok c10ExCreate ∧
+    parseSQL (renderText c10TxGap c10TxCase (renderStmt c10ExOpts c10ExUpdate ++ closing c10ExOpts 1 false)) = .ok c10ExUpdate ∧
+    parseSQL (renderText c10TxGap c10TxCase (renderStmt c10ExOpts .showDatabases ++ closing c10ExOpts 1 false)) =
+      .ok .showDatabases :=
+  ⟨C10_text_roundtrip_spaced {} rfl _ (by decide) (by decide) 1 (by decide) _ _ c10TxGap_ok c10TxGap_ne,
+   C10_text_roundtrip_spaced c10ExOpts rfl _ (by decide) (by decide) 0 (by decide) _ _ c10TxGap_ok c10TxGap_ne,
+   C10_text_roundtrip_spaced c10ExOpts rfl _ (by decide) (by decide) 2 (by decide) _ _ c10TxGap_ok c10TxGap_ne,
+   C10_text_roundtrip_spaced {} rfl _ (by decide) (by decide) 1 (by decide) _ _ c10TxGap_ok c10TxGap_ne,
+   C10_text_roundtrip_spaced c10ExOpts rfl _ (by decide) (by decide) 1 (by decide) _ _ c10TxGap_ok c10TxGap_ne,
+   C10_text_roundtrip_spaced c10ExOpts rfl _ (by decide) (by decide) 1 (by decide) _ _ c10TxGap_ok c10TxGap_ne⟩
+
+/-- the same by evaluation of the scanner and parser models, independent of the proofs -/
+example :
+    (match parseSQL (renderText c10TxGap c10TxCase (renderStmt c10ExOpts c10ExSelect ++ closing c10ExOpts 0 false)) with
+      | .ok s => s == c10ExSelect | _ => false) = true ∧
+    (match parseSQL (renderText c10TxGap c10TxCase (renderStmt c10ExOpts c10ExInsert ++ closing c10ExOpts 2 false)) with
+      | .ok s => s == c10ExInsert | _ => false) = true ∧
+    (match parseSQL (renderText c10TxGap c10TxCase (renderStmt {} c10ExCreate ++ closing {} 1 false)) with
+      | .ok s => s == c10ExCreate | _ => false) = true := by
+  refine ⟨?_, ?_, ?_⟩ <;> decide +kernel
+
+/-- tokens that touch: `SELECT COUNT(*),t.a FROM t WHERE a<=1 GROUP BY t.a;` is an admissible layout
+(through `C10_text_roundtrip` itself, with `layoutOK` decided) -/
+example : (renderText c10TxTight (fun _ => []) (renderStmt {} c10TxTightStmt ++ closing {} 1 false)).map (·.code) =
+      strCodes "SELECT COUNT(*),t.a FROM t WHERE a<=1 GROUP BY t.a;" ∧
+    parseSQL (renderText c10TxTight (fun _ => []) (renderStmt {} c10TxTightStmt ++ closing {} 1 false)) = .ok c10TxTightStmt :=
+  ⟨by decide, C10_text_roundtrip {} rfl _ (by decide) (by decide) 1 (by decide) _ _ (by decide)⟩
+
+/-- the three VALUES rows (of 3, 3 and 0 values) of the INSERT come back from its text -/
+example : ∃ cols' rows', parseSQL (renderText c10TxGap c10TxCase (renderStmt c10ExOpts c10ExInsert ++ closing c10ExOpts 1 false)) =
+      .ok (.insert [116] cols' rows') ∧ rows'.length = 3 ∧ rows'.map List.length = [3, 3, 0] := by
+  obtain ⟨c, r, h, _, hr, _, _⟩ :=
+    (C10_text_no_list_cut c10ExOpts rfl c10ExInsert (by decide) (by decide) 1 (by decide) c10TxGap c10TxCase
+      (C10_spaced_layout _ _ _ c10TxGap_ok (fun j h _ => c10TxGap_ne j h))).2.1 _ _ _ rfl
+  exact ⟨c, r, h, by rw [hr]; rfl, by rw [hr]; rfl⟩
+
+/-- what `TextOK` refuses: a table named `select` / `Order`, a name with a blank, a name starting with a
+digit, an empty name, a non-ASCII name; a string with a quote, a line feed, a trailing backslash, a
+non-ASCII byte.  (A string with an escaped quote `it\'s` is accepted - and comes back with its backslash.) -/
+example : ¬ TextOK (.use [115, 101, 108, 101, 99, 116]) ∧ ¬ TextOK (.use [79, 114, 100, 101, 114]) ∧
+    ¬ TextOK (.use [97, 32, 98]) ∧ ¬ TextOK (.use [49, 97]) ∧ ¬ TextOK (.use []) ∧ ¬ TextOK (.use [0xC3, 0xA9]) ∧
+    ¬ TextOK (.insert [116] [] [[.str [105, 116, 39, 115]]]) ∧ ¬ TextOK (.insert [116] [] [[.str [97, 10, 98]]]) ∧
+    ¬ TextOK (.insert [116] [] [[.str [97, 92]]]) ∧ ¬ TextOK (.insert [116] [] [[.str [0xC3, 0xA9]]]) ∧
+    TextOK (.insert [116] [] [[.str [105, 116, 92, 39, 115]]]) := by decide
 
 end Mkdb.Sql
